@@ -148,6 +148,9 @@ def judge(cfg, qw):
             out.append((kind, 'message %s: failure groups %r but bounces were built for %r' % (qid, exp, got)))
         for i, b in mine:
             used.add(i)
+            if b.get('raised'):
+                out.append(('bounce-could-not-be-built', 'building the bounce for %r raised %s' % (b['rcpts'], b['raised'])))
+                continue
             if bounce_kind != 'none':
                 if not b['produced'] or not b['enqueued']:
                     out.append(('bounce-not-enqueued', 'bounce for %r was not handed to the bounce queue' % (b['rcpts'],)))
